@@ -212,6 +212,10 @@ func protocolEqual(one, other Protocol) bool {
 }
 
 func (mc *metadataContext) newTransport(id multicodec.Code) Protocol {
+	if mc == nil {
+		// A zero-value Metadata has no context; use the default one.
+		mc = Default.(*metadataContext)
+	}
 	if factory, ok := mc.protocols[id]; ok {
 		return factory()
 	}
